@@ -24,6 +24,8 @@ from gens import kin
 
 HARNESS_TIMEOUT = 180
 KEY_ACCUM = "tol-is-per-substep-global-error-accumulates"
+KEY_RK1 = "rk1-equal-rate-test-at-start-time"
+KEY_HALF = "transport-first-cell-half-steps-share-time"
 LITERAL = 100.0           # the property's bound: |amount - exact| <= 100 x tol
 TRACE_MAX = 60000          # harness/ph_kin.cpp truncates longer traces
 
@@ -291,6 +293,9 @@ def analyse(prob, cfg, r):
                     segs[-1].append(a)
             R = len(segs) - 1
             out["restarts"] += R
+            if R >= cfg["integ"]["bad_step_max"]:
+                out["problems"].append(("restart-count", f"step {step}: {R} re-started CVode calls in a completed run with -bad_step_max "
+                                        f"{cfg['integ']['bad_step_max']} (the loop gives up at ++m_iter >= bad_step_max)"))
             if R > 0:
                 m0_clock = segs[0][0][1]
                 S = 0.0
@@ -326,7 +331,11 @@ def analyse(prob, cfg, r):
             out["ratio"] = max(out["ratio"], ratio)
             if lit > out["literal"]:
                 out["literal"] = lit
-            if ratio > 1.0:
+            if ratio > 1.0 and prob.kind == "tquad" and not cfg["integ"]["cvode"] and cfg["integ"]["rk"] <= 1 \
+                    and cfg["integ"]["step_divide"] <= 1:
+                # -runge_kutta 1: the "rate at the end of the step" is evaluated at the start time (candidate finding KEY_RK1)
+                out["rk1_time"] = max(out.get("rk1_time", 0.0), lit)
+            elif ratio > 1.0:
                 # beyond what per-sub-step error control can explain: violation
                 out["band"] = "violation"
                 out["problems"].append(("closed-form", f"step {step} (t = {t_end!r}): {nm} = {got!r}, exact solution {v!r}: "
@@ -339,6 +348,78 @@ def analyse(prob, cfg, r):
                 if out["accum"] is None or lit > out["accum"]["x_tol"]:
                     out["accum"] = {"step": step, "reactant": nm, "x_tol": lit, "evaluations": cum_evals,
                                     "explained_up_to_x_tol": bound / tol}
+    return out
+
+
+# ------------------------------------------------------------------------------------------------------------------
+# kinetics inside ADVECTION / TRANSPORT time steps
+# ------------------------------------------------------------------------------------------------------------------
+def analyse_flow(cfg, r):
+    """every punched (cell, shift): TOTAL_TIME = shift x time_step and the amount of the solid reactant = closed form at that time"""
+    out = {"status": "ok", "problems": [], "band": "within100", "literal": 0.0, "accum": None, "rk1_time": 0.0, "half": None, "rows": 0}
+    if r is None:
+        out["status"] = "timeout"
+        return out
+    if r["nerr"]:
+        out["status"] = "error"
+        return out
+    if len(r["trace"]) >= TRACE_MAX:
+        out["status"] = "truncated"
+        return out
+    n, dt, tol = cfg["cells"], cfg["dt"], cfg["tol"]
+    nev = sum(1 for a in r["trace"] if a[2] == "A")
+    bound = tol * max(100.0, 2.0 * nev)
+    rk1 = (not cfg["integ"]["cvode"]) and cfg["integ"]["rk"] <= 1 and cfg["integ"]["step_divide"] <= 1
+    # first cell in flow direction gets its kinetic time in two halves (transport.cpp "halftime kinetics for resident water")
+    first_c = None
+    if cfg["mode"] == "transport" and n > 1 and cfg.get("flow") != "diffusion_only":
+        first_c = 1 if cfg["flow"] == "forward" else n
+    seen = {}
+    for row in r["rows"]:
+        cell, tt, m = row[0], row[1], row[2]
+        if cell is None or m is None or not (1 <= cell <= n) or cell != int(cell):
+            continue
+        cell = int(cell)
+        if cfg["mode"] == "transport" and cell not in seen and tt == 0:
+            seen[cell] = 0          # transport punches the initial condition (shift 0)
+            continue
+        seen[cell] = seen.get(cell, 0) + 1
+        shift = seen[cell]
+        out["rows"] += 1
+        t_exp = shift * dt
+        if m < 0:
+            out["problems"].append(("negative", f"cell {cell} shift {shift}: amount {m!r}"))
+        if abs(tt - t_exp) > 1e-9 * t_exp:
+            if cell == first_c:
+                out["half"] = {"what": "TOTAL_TIME", "cell": cell, "shift": shift, "reported": tt, "expected": t_exp}
+            else:
+                out["problems"].append(("time", f"cell {cell} shift {shift}: TOTAL_TIME {tt!r}, expected {t_exp!r}"))
+        ex = kin.flow_exact(cfg, t_exp)
+        lit = abs(m - ex) / tol
+        out["literal"] = max(out["literal"], lit)
+        if abs(m - ex) > bound:
+            if cfg["kind"] == "tquad" and cell == first_c:
+                if out["half"] is None or out["half"].get("what") != "amount":
+                    out["half"] = {"what": "amount", "cell": cell, "shift": shift, "x_tol": lit, "amount": m, "exact": ex}
+            elif cfg["kind"] == "tquad" and rk1:
+                out["rk1_time"] = max(out["rk1_time"], lit)
+            else:
+                out["band"] = "violation"
+                out["problems"].append(("closed-form", f"{cfg['mode']} cell {cell} after shift {shift} (t = {t_exp!r}): A = {m!r}, exact {ex!r}: "
+                                        f"difference {lit:.4g} x tol, property allows 100 x tol, accumulation would explain {bound / tol:.4g} x tol"))
+        elif lit > LITERAL:
+            if out["band"] == "within100":
+                out["band"] = "finding"
+            if out["accum"] is None or lit > out["accum"]["x_tol"]:
+                out["accum"] = {"mode": cfg["mode"], "cell": cell, "shift": shift, "x_tol": lit, "evaluations": nev,
+                                "explained_up_to_x_tol": bound / tol}
+    expected_rows = n * cfg["shifts"]
+    if out["rows"] == 0 and nev == 0 and cfg.get("flow") == "diffusion_only":
+        # diffusion only with nothing to mix (zero diffusion coefficient, or one closed cell): TRANSPORT performs no calculation at all
+        out["status"] = "no-calculation"
+        return out
+    if out["rows"] != expected_rows and not cfg.get("stagnant"):
+        out["problems"].append(("rows", f"{out['rows']} punched (cell, shift) rows, expected {expected_rows}"))
     return out
 
 
@@ -356,7 +437,7 @@ LIB = {
 def lib_input(name, cfg):
     L = LIB[name]
     kc = 1.5 / L["T"]
-    txt = [kin.TRACER_DB, "SOLUTION 1\n -units mmol/kgw\n", L["sol"], " -water 1\n",
+    txt = [kin.TRACER_DB, f"SOLUTION 1\n -units mmol/kgw\n temp {cfg.get('temp', 25)}\n", L["sol"], " -water 1\n",
            "RATES\n A\n -start\n 10 rate = PARM(1) * M\n 20 moles = rate * TIME\n 25 dummy = CALLBACK(TOTAL_TIME, M, \"A\")\n 30 SAVE moles\n -end\n",
            "KINETICS 1\n", L["comp"], f"  -tol {kin.fmt(cfg['tol'])}\n",
            f" A\n  -formula Xa 1\n  -m 1e-3\n  -m0 1e-3\n  -parms {kin.fmt(kc)}\n  -tol {kin.fmt(cfg['tol'])}\n",
@@ -375,8 +456,10 @@ def lib_input(name, cfg):
 def lib_configs(rng, name):
     L = LIB[name]
     cfgs = []
+    temp = rng.choice([5, 15, 25, 25, 40, 60])        # same temperature for the configurations that are compared
     for _ in range(4):
         c = kin.gen_config(rng, L["T"], L["tol"])
+        c["temp"] = temp
         if c["integ"]["cvode"]:
             c["integ"]["cvode_steps"] = rng.choice([100, 200, 500])     # restarts are exercised by the closed-form families
         else:
@@ -449,6 +532,12 @@ def gen_closed(rng):
     tol = 10 ** rng.uniform(-10, -6)
     prob = kin.gen_problem(rng, T)
     cfgs = [kin.gen_config(rng, T, tol) for _ in range(4)]
+    if prob.kind == "tquad":
+        # CVODE evaluates the rates at the time of the last completed internal step: a time-dependent rate is outside what it integrates
+        for c in cfgs:
+            if c["integ"]["cvode"]:
+                c["integ"] = {"cvode": False, "rk": rng.choice([1, 2, 3, 6]), "step_divide": rng.choice([1, 1, 2, 10, 0.01]),
+                              "bad_step_max": 500}
     return prob, cfgs
 
 
@@ -480,6 +569,7 @@ def run(ctx):
 
     bands = {"within100": 0, "finding": 0, "violation": 0}
     bands_by_integrator = {}
+    rk1_batch = [None]
     accum_best = [None]          # (x_tol, replay, detail) of the largest excess over 100 x tol that accumulation explains
 
     def note_accum(x_tol, replay_data, detail):
@@ -604,6 +694,10 @@ def run(ctx):
             account(prob, cfg, o)
             if o["accum"]:
                 note_accum(o["accum"]["x_tol"], {"kind": "closed", "problem": prob.to_json(), "config": cfg}, o["accum"])
+            if o.get("rk1_time"):
+                bump("batch runs showing " + KEY_RK1)
+                if rk1_batch[0] is None or o["rk1_time"] > rk1_batch[0][0]:
+                    rk1_batch[0] = (o["rk1_time"], {"kind": "closed", "problem": prob.to_json(), "config": cfg})
             worst_ratio = max(worst_ratio, o["ratio"])
             worst_bal = max(worst_bal, o["balance"])
             if o["restarts"]:
@@ -619,6 +713,40 @@ def run(ctx):
             for kind_, text in o["problems"][:1]:
                 if len(ctx.violations) < 3:
                     ctx.violation(f"{kind_}: {text}", {"kind": "closed", "problem": prob.to_json(), "config": cfg})
+    # ---- kinetics inside ADVECTION / TRANSPORT time steps ----------------------------------------------------------
+    n_flow = ctx.n(60, 800)
+    flows = [kin.gen_flow(rng) for _ in range(n_flow)]
+    fgroups = [flows[i:i + 4] for i in range(0, len(flows), 4)]
+
+    def flow_group(g):
+        res = run_inputs(exe, [kin.flow_input(c) for c in g], trace=True)
+        return [analyse_flow(c, r) for c, r in zip(g, res)]
+    with cf.ThreadPoolExecutor(vlib.NCPU) as ex:
+        fouts = [o for grp in ex.map(flow_group, fgroups) for o in grp]
+    flow_rows = 0
+    rk1_best, half_best = [None], [None]
+    for cfgf, o in zip(flows, fouts):
+        evals += 1
+        bump("flow " + cfgf["mode"] + (" " + cfgf["flow"] if cfgf["mode"] == "transport" else ""))
+        bump("flow kind " + cfgf["kind"])
+        bump("flow status " + o["status"])
+        if cfgf.get("stagnant"):
+            bump("flow with stagnant zone")
+        if o["status"] != "ok":
+            continue
+        distinct += 1
+        flow_rows += o["rows"]
+        bands[o["band"]] += 1
+        if o["accum"]:
+            note_accum(o["accum"]["x_tol"], {"kind": "flow", "config": cfgf}, o["accum"])
+        if o["rk1_time"] and (rk1_best[0] is None or o["rk1_time"] > rk1_best[0][0]):
+            rk1_best[0] = (o["rk1_time"], {"kind": "flow", "config": cfgf})
+        if o["half"] and half_best[0] is None:
+            half_best[0] = (o["half"], {"kind": "flow", "config": cfgf})
+        for kind_, text in o["problems"][:1]:
+            if len(ctx.violations) < 4:
+                ctx.violation(f"{kind_}: {text}", {"kind": "flow", "config": cfgf})
+    ctx.cov["flow"] = {"runs": len(flows), "cell_shift_rows_judged": flow_rows}
     # ---- shipped rate library --------------------------------------------------------------------------------------
     lib_worst, lib_cmp = 0.0, 0
     lib_jobs = []
@@ -638,6 +766,7 @@ def run(ctx):
         evals += len(cfgs)
         distinct += done
         bump("library " + name, len(cfgs))
+        bump(f"library temp {cfgs[0].get('temp', 25)}", len(cfgs))
         bump("library runs completed", done)
         lib_cmp += ncmp
         lib_worst = max(lib_worst, worst)
@@ -653,6 +782,14 @@ def run(ctx):
     if accum_best[0] is not None:
         x_tol, rp, detail = accum_best[0]
         ctx.finding(KEY_ACCUM, f"amount at T differs from the exact solution by {x_tol:.4g} x tol (property: 100 x tol); {detail}", rp)
+    best_rk1 = max([x for x in (rk1_batch[0], rk1_best[0]) if x is not None], key=lambda x: x[0], default=None)
+    if best_rk1 is not None:
+        ctx.finding(KEY_RK1, f"rate = a x TOTAL_TIME with -runge_kutta 1 (-step_divide <= 1): the Euler exit compares the rate at the start of the "
+                    f"step with a 'rate at the end' that is evaluated at the same TOTAL_TIME, finds them equal and keeps the Euler amount: "
+                    f"{best_rk1[0]:.4g} x tol off the exact solution (other -runge_kutta settings: exact)", best_rk1[1])
+    if half_best[0] is not None:
+        ctx.finding(KEY_HALF, f"TRANSPORT with flow and more than one cell: the first cell gets its kinetic time in two half steps that both start at "
+                    f"the same rate_sim_time_start; {half_best[0][0]}", half_best[0][1])
     ctx.cov["tolerance_bands"] = {"runs <= 100 x tol": bands["within100"], "runs in the finding band (100 x tol < error <= sqrt(n) x tol x "
                                   "max(100, 2 x evaluations))": bands["finding"], "runs beyond (violation)": bands["violation"],
                                   "by_integrator": dict(sorted(bands_by_integrator.items())),
@@ -708,6 +845,16 @@ def replay(ctx, data):
         orc = poly_oracle(spec, real)
         if orc or v == "mismatch":
             ctx.violation("replayed case still fails: " + (orc or detail), data, found_input=bool(orc))
+    elif kind_ == "flow":
+        cfgf = data["config"]
+        o = analyse_flow(cfgf, run_inputs(exe, [kin.flow_input(cfgf)], trace=True)[0])
+        print("replay:", json.dumps(o, default=str)[:1500])
+        if o["problems"]:
+            ctx.violation("replayed case still fails: " + o["problems"][0][1], data)
+        if o["rk1_time"]:
+            ctx.finding(KEY_RK1, f"replayed: {o['rk1_time']:.4g} x tol", data)
+        if o["half"]:
+            ctx.finding(KEY_HALF, f"replayed: {o['half']}", data)
     elif kind_ == "library":
         cfgs = data["configs"]
         for c in cfgs:
@@ -740,7 +887,10 @@ MANIFEST = dict(
          "final amounts never negative; time — incremental_times_sum, cumulative last step = T, list steps; restart_covers_T for the CVODE "
          "restart statements read from run_reactions. Correspondence: every RATES evaluation of real rk_kinetics vs the Float model "
          "(bit patterns), Current_step direct. Obligation over generated data: closed-form families, balance, non-negativity, time columns, "
-         "restart accounting and restart state (from the callback trace), rate library on real runs. The closed-form and independence clauses "
+         "restart accounting and restart state (from the callback trace), rate library on real runs (also at 5-60 C); the same closed forms "
+         "for a solid kinetic reactant in every cell of ADVECTION / TRANSPORT columns (forward, back, diffusion only, dispersion sub-steps, "
+         "stagnant zones): every punched (cell, shift) row has TOTAL_TIME = shift x time_step and the closed-form amount, including a rate "
+         "a x TOTAL_TIME that tests the time seen by RATES. The closed-form and independence clauses "
          "are judged against the literal 100 x tol first; runs beyond it but within sqrt(n) x tol x max(100, 2 x rate evaluations) are reported "
          "as KNOWN-FINDING tol-is-per-substep-global-error-accumulates (a deterministic reproduction, first-order decay with -cvode_order 1, "
          "~3900 x tol, runs first), runs beyond that are violations; band counts in the evidence. Corpus of two minimised past "
@@ -748,7 +898,9 @@ MANIFEST = dict(
     note="Trusted: gen_rk.py (regex + exact rational evaluator; fails closed), harness/ph_kin.cpp (BASIC callback trace, friend access), "
          "tolerance logic in c12.py. Partial: CVODE (BDF) internals are not modelled — explored only; the chemistry solve between stages is "
          "the model's rate-function parameter (MASS_BALANCE retry path, limit_rates, related exchangers/surfaces not modelled); the early-exit "
-         "case of accepted_steps_cover_T is not proved (only the normal loop exit). Known finding: the code does not meet the literal "
+         "case of accepted_steps_cover_T is not proved (only the normal loop exit); the non-termination statement covers a fresh attempt "
+         "(k1 evaluation) and the controller, not yet the whole loop by induction; the CVStep model is abstract (scalar state, outcomes of the "
+         "convergence/error tests as inputs). Known finding: the code does not meet the literal "
          "'100 x tol' (CVODE, low order or many restarts); the accumulation bound that separates the finding band from violations is the "
          "check's own (error gate theorem: each accepted sub-step has estimate <= tol; evaluations >= sub-steps).",
 )
